@@ -541,19 +541,24 @@ def decHeader : Dec (UInt8 × BlockHeader) := do
   let (sl, _) ← readExt decSupLinks
   pure (f, ⟨version, height, prev, ts, root, wit, sl⟩)
 
-/-- one transaction of a block: `data.readFrom(r)` then `NewTx(data)` -/
-def decBlockTx (H : Bytes → Bytes) : Dec TxData := do
+/-- one transaction of a block: `data.readFrom(r)` then `NewTx(data)`; `mp` is the mapping
+    step (`mapTxD` in the code) -/
+def decBlockTxWith (mp : TxData → Dec Unit) (H : Bytes → Bytes) : Dec TxData := do
   let tx ← decTx H
-  mapTxD tx
+  mp tx
   pure tx
 
+def decBlockTx (H : Bytes → Bytes) : Dec TxData := decBlockTxWith mapTxD H
+
 /-- `Block.readFrom` -/
-def decBlock (H : Bytes → Bytes) : Dec (UInt8 × Block) := do
+def decBlockWith (mp : TxData → Dec Unit) (H : Bytes → Bytes) : Dec (UInt8 × Block) := do
   let (f, h) ← decHeader
   if f = 1 then pure (f, ⟨h, []⟩) else do
   let n ← readVarint31
-  let txs ← readN (aTx + aPtr) (decBlockTx H) n
+  let txs ← readN (aTx + aPtr) (decBlockTxWith mp H) n
   pure (f, ⟨h, txs⟩)
+
+def decBlock (H : Bytes → Bytes) : Dec (UInt8 × Block) := decBlockWith mapTxD H
 
 /-! ### text layer (`MarshalText` / `UnmarshalText`: lowercase hex) -/
 
@@ -604,8 +609,10 @@ def headerFromText : Bytes → Res BlockHeader :=
     if f = 2 then fail .hdrFlags else pure h)
 
 /-- `Block.UnmarshalText` -/
-def blockFromText (H : Bytes → Bytes) : Bytes → Res (UInt8 × Block) :=
-  fromText (do let b ← decBlock H; noTrailing b)
+def blockFromTextWith (mp : TxData → Dec Unit) (H : Bytes → Bytes) : Bytes → Res (UInt8 × Block) :=
+  fromText (do let b ← decBlockWith mp H; noTrailing b)
+
+def blockFromText (H : Bytes → Bytes) : Bytes → Res (UInt8 × Block) := blockFromTextWith mapTxD H
 
 /-- `decodeMessage` of the two reactors (`netsync/chainmgr/protocol_reactor.go`,
     `netsync/consensusmgr/consensus_msg.go`): `msgType = bz[0]` comes before anything else;
